@@ -55,7 +55,7 @@ pub const NK: usize = K::N_ as usize;
 pub enum D
 {
     Spawn, Despawn, DespawnRec, Remove, TriggerMutation, Insert, Gc, Poll, Flush, KillInst, SysEvent, Broadcast, EntityEvent,
-    TriggerRes, Run, Reparent, Sig, Syscall,
+    TriggerRes, Run, Reparent, Sig, Syscall, Acc, ResAcc, Move,
     N_,
 }
 pub const ND: usize = D::N_ as usize;
@@ -116,9 +116,9 @@ pub fn base_cfg() -> Cfg
             (K::Direct, 5), (K::Now, 6), (K::WrAdd, 0), (K::WrRemove, 0), (K::WrRun, 0), (K::EwrAdd, 0), (K::EwrRemove, 0), (K::CmdSyscall, 0),
         ]),
         d_tree: dset(&[(D::Despawn, 4), (D::DespawnRec, 1), (D::Remove, 4), (D::TriggerMutation, 5), (D::Insert, 2), (D::Gc, 2), (D::Poll, 2), (D::Flush, 1),
-            (D::KillInst, 3), (D::SysEvent, 3), (D::Broadcast, 3), (D::EntityEvent, 3), (D::TriggerRes, 2), (D::Run, 3), (D::Spawn, 2)]),
+            (D::KillInst, 3), (D::SysEvent, 3), (D::Broadcast, 3), (D::EntityEvent, 3), (D::TriggerRes, 2), (D::Run, 3), (D::Spawn, 2), (D::Acc, 2), (D::ResAcc, 1), (D::Move, 1)]),
         d_driver: dset(&[(D::Spawn, 4), (D::Despawn, 4), (D::DespawnRec, 1), (D::Remove, 4), (D::TriggerMutation, 4), (D::Insert, 3), (D::Gc, 5), (D::Poll, 6),
-            (D::Flush, 1), (D::KillInst, 2), (D::SysEvent, 4), (D::Broadcast, 4), (D::EntityEvent, 4), (D::TriggerRes, 3), (D::Run, 4)]),
+            (D::Flush, 1), (D::KillInst, 2), (D::SysEvent, 4), (D::Broadcast, 4), (D::EntityEvent, 4), (D::TriggerRes, 3), (D::Run, 4), (D::Acc, 2), (D::ResAcc, 1), (D::Move, 1)]),
         slots: (2, 4),
         pre_insts: (2, 5),
         max_created: 4,
@@ -273,7 +273,9 @@ pub fn profile(name: &str) -> Cfg
             c.d_tree[D::Despawn as usize] = 8;
             c.d_driver[D::TriggerMutation as usize] = 8;
             c.d_driver[D::Insert as usize] = 8;
-            c.pct_excl = 10;
+            for d in [D::Acc, D::ResAcc, D::Move] { let w = if d == D::Acc { 24 } else if d == D::ResAcc { 10 } else { 5 }; c.d_tree[d as usize] = w; c.d_driver[d as usize] = w; }
+            bump(&mut c, &[(K::Direct, 14), (K::Now, 10)]);
+            c.pct_excl = 15;
             c.pct_hot = 85;
         }
         "C15" =>
@@ -449,6 +451,24 @@ impl<'a> G<'a>
                 let child = self.r.range(1, self.nslots as u64 - 1) as Slot;
                 let parent = self.r.below(child as u64) as Slot;
                 WOp::Reparent(child, parent)
+            }
+            x if x == D::Acc as usize =>
+            {
+                const KINDS: [AccKind; 10] = [AccKind::QGetMut, AccKind::QSetIfNeq, AccKind::QNoreact, AccKind::QRead, AccKind::RoRead, AccKind::SingleMut, AccKind::SingleNoreact, AccKind::SingleSetIfNeq, AccKind::SingleRead, AccKind::RoSingle];
+                // the reacting ones twice as often
+                let k = match self.r.below(14) { 10 | 11 => AccKind::QGetMut, 12 => AccKind::QSetIfNeq, 13 => AccKind::SingleMut, i => KINDS[i as usize] };
+                WOp::Acc(k, s, self.comp(), self.val())
+            }
+            x if x == D::ResAcc as usize =>
+            {
+                const KINDS: [ResAccKind; 8] = [ResAccKind::WorldNoreact, ResAccKind::WorldGetNoreact, ResAccKind::WorldRead, ResAccKind::ParamRead, ResAccKind::WorldInsert, ResAccKind::CmdInsert, ResAccKind::Init, ResAccKind::GetOrInsertWith];
+                WOp::ResAcc(KINDS[self.r.below(8) as usize], self.res(), self.val())
+            }
+            x if x == D::Move as usize =>
+            {
+                if self.nslots < 2 { return None; }
+                let to = (s + 1 + self.r.below(self.nslots as u64 - 1) as Slot) % self.nslots;
+                WOp::Move(s, to, self.comp())
             }
             x if x == D::Syscall as usize => { let o = crate::sysfam::gen_syscall(self.r)?; if !driver && matches!(o, WOp::DropSysRc(_)) { return None; } o }
             _ => return None,
